@@ -555,8 +555,8 @@ func runC13(c *Cfg) {
 			r.Count("op."+linOpNames[o.In.Op], 1)
 		}
 	}
-	if unknown > 0 {
-		r.Incon(fmt.Sprintf("%d histories: porcupine timed out", unknown))
+	if unknown*10000 > r.Evaluations { // a stray checker timeout is counted (porcupine.unknown), not a verdict; many of them are
+		r.Incon(fmt.Sprintf("%d of %d histories: porcupine timed out", unknown, r.Evaluations))
 	}
 	// floor: the histories must actually have been concurrent
 	if r.Evaluations > 0 && overlapsTotal < r.Evaluations {
